@@ -1,10 +1,10 @@
 #!/bin/bash
 # run every registered quick check on the three behaviour-preserving whole-package transforms; print anything that is not exit 0
 cd /verif
-for T in ${TS:-T3 T1 T2 T4 T5 T6 T7}; do
-  D=$(mktemp -d /tmp/benign.XXXXXX); python3 tools/benign.py $T $D
+for T in ${TS:-T3 T1 T2 T4 T5 T6 T7 T8}; do
+  D=$(mktemp -d /tmp/benign.XXXXXX); BENIGN_SRC=${BENIGN_SRC:-/repo} python3 tools/benign.py $T $D
   for p in $(python3 -c "import json;print(' '.join(c['property_id'] for c in json.load(open('MANIFEST.json'))['checks']))"); do
-    out=$(VERIF_REPO=$D python3 sa/check.py $p 2>&1); rc=$?
+    out=$(VERIF_REPO=$D VERIF_EVIDENCE_DIR=$D/.ev python3 sa/check.py $p 2>&1); rc=$?
     if [ $rc -ne 0 ]; then echo "--- $T $p rc=$rc"; echo "$out" | grep -E "violated|ANALYSIS" | cut -c1-${W:-230} | head -${N:-3}; fi
   done
   rm -rf $D
